@@ -262,7 +262,7 @@ func guard(r *vlib.Rec, f func()) {
 // ---------------------------------------------------------------------------
 // string payloads
 
-var alphabet = []byte{'a', '"', '\\', '\'', '\n', 0, 0x7f, 0x80, 0xff, ' ', ',', ')', '(', '='}
+var alphabet = []byte{'a', '"', '\\', '\'', '\n', 0, 0x7f, 0x80, 0xff, ' ', ',', ')', '(', '=', '1', '7'}
 
 func strCount(maxLen int) int64 {
 	n, p := int64(1), int64(1)
@@ -1253,6 +1253,59 @@ func historyHook(cases []valueCase, rounds int, r *vlib.Rec) {
 	r.NonTrivial()
 }
 
+// historyErrors interleaves failing Encode calls (the same value in a message
+// whose traversal budget is zero, a legitimate error) with Encodes of the good
+// value on one Encoder: the good value must render as on a fresh Encoder
+// after any number of earlier failures.
+func historyErrors(c valueCase, K int, r *vlib.Rec) {
+	good := c.f()
+	want, err := render(good)
+	if err != nil {
+		r.Failf("marshal-error", "%s: %v", good.name, err)
+		return
+	}
+	var buf bytes.Buffer
+	enc := text.NewEncoder(&buf)
+	failures := 0
+	for k := 1; k <= K; k++ {
+		bad := c.f()
+		if bad.isList {
+			bad.list.Message().ResetReadLimit(0)
+		} else {
+			bad.s.Message().ResetReadLimit(0)
+		}
+		buf.Reset()
+		var e error
+		if bad.isList {
+			e = enc.EncodeList(bad.typeID, bad.list)
+		} else {
+			e = enc.Encode(bad.typeID, bad.s)
+		}
+		if e != nil {
+			failures++
+		}
+		buf.Reset()
+		if good.isList {
+			e = enc.EncodeList(good.typeID, good.list)
+		} else {
+			e = enc.Encode(good.typeID, good.s)
+		}
+		if e != nil {
+			r.Failf("encoder-history/error-after-failed-encodes", "%s: after %d failed Encode calls on the same Encoder, encoding a good value fails: %v", good.name, failures, e)
+			return
+		}
+		if got := buf.String(); got != want {
+			r.Failf("encoder-history/output-differs-after-failed-encodes", "%s: after %d failed Encode calls on the same Encoder the good value prints %q, a fresh Encoder prints %q", good.name, failures, got, want)
+			return
+		}
+	}
+	if failures > 0 {
+		r.Outcome("history-errors/with-failures")
+	} else {
+		r.Outcome("history-errors/value-has-no-pointers")
+	}
+}
+
 // historyBrute encodes one value K times on one Encoder.
 func historyBrute(c valueCase, K int64, r *vlib.Rec) {
 	b := c.f()
@@ -1420,6 +1473,14 @@ func families(tier string) []vlib.Family {
 				guard(r, func() { historyHook([]valueCase{samples[i]}, 4, r) })
 			},
 			Describe: func(i int64) interface{} { return "one Encoder, 4x " + samples[i].name },
+		},
+		{
+			Name: "history-errors", N: int64(len(samples)),
+			Run: func(i int64, r *vlib.Rec) {
+				r.NonTrivial()
+				guard(r, func() { historyErrors(samples[i], 300, r) })
+			},
+			Describe: func(i int64) interface{} { return samples[i].name + " interleaved with 300 failing Encodes" },
 		},
 		{
 			Name: "history-hook-mixed", N: int64(len(samples) * len(samples)),
